@@ -171,6 +171,10 @@ func parsePacketAdaptationField(i *astikit.BytesIterator) (a *PacketAdaptationFi
 	// Length
 	a.Length = int(b)
 
+	// A zero length means the adaptation field is made of its length byte only: this is how the muxer
+	// represents it, flag it so that the packet can be written back as is
+	a.IsOneByteStuffing = a.Length == 0
+
 	afStartOffset := i.Offset()
 
 	// Valid length
